@@ -55,27 +55,27 @@ def probes(ck, runner):
     exp = bag([["1", "1"], ["2", "0"], [None, "0"]])
     ck.probe("subquery/scalar_agg/empty_set/count", "correlated scalar count(*) over an empty correlated set returns NULL instead of 0",
              {"kind": "impl-vs-oracle", "setup": setup, "sql": "SELECT a, (SELECT count(*) FROM u WHERE u.b = t.a) FROM t", "engine": r, "expected": exp},
-             isinstance(r, dict) or "rows" not in r or bag(r["rows"]) != exp)
+             "rows" not in r or bag(r["rows"]) != exp)
     r = run("SELECT a FROM t WHERE a NOT IN (SELECT b FROM u)")
     ck.probe("subquery/not_in/null_in_rhs", "x NOT IN (subquery containing NULL) returns rows (must return none)",
              {"kind": "impl-vs-oracle", "setup": setup, "sql": "SELECT a FROM t WHERE a NOT IN (SELECT b FROM u)", "engine": r, "expected": []},
-             isinstance(r, dict) or "rows" not in r or r["rows"] != [])
+             "rows" not in r or r["rows"] != [])
     r = run("SELECT a, a IN (SELECT b FROM u) FROM t")
     exp = bag([["1", "true"], ["2", None], [None, None]])
     ck.probe("subquery/in/3vl-select-list", "x IN (subquery) in the select list returns FALSE where SQL requires NULL",
              {"kind": "impl-vs-oracle", "setup": setup, "sql": "SELECT a, a IN (SELECT b FROM u) FROM t", "engine": r, "expected": exp},
-             isinstance(r, dict) or "rows" not in r or bag(r["rows"]) != exp)
+             "rows" not in r or bag(r["rows"]) != exp)
     q = "SELECT a FROM t WHERE EXISTS (SELECT 1 FROM u WHERE t.a IS NULL OR u.b = t.a)"
     r = run(q)
     exp = bag([["1"], [None]])
     ck.probe("subquery/exists/null-correlated-column", "EXISTS whose predicate holds for a NULL outer value loses that outer row (decorrelation joins back with `=`)",
              {"kind": "impl-vs-oracle", "setup": setup, "sql": q, "engine": r, "expected": exp},
-             isinstance(r, dict) or "rows" not in r or bag(r["rows"]) != exp)
+             "rows" not in r or bag(r["rows"]) != exp)
     r = run("SELECT a, m FROM t, LATERAL (SELECT max(b) AS m FROM u WHERE u.b <= t.a) l")
     exp = bag([["1", "1"], ["2", "1"], [None, None]])
     ck.probe("subquery/lateral/ungrouped_agg_empty", "LATERAL ungrouped aggregate drops outer rows without matches",
              {"kind": "impl-vs-oracle", "setup": setup, "sql": "SELECT a, m FROM t, LATERAL (SELECT max(b) AS m FROM u WHERE u.b <= t.a) l", "engine": r, "expected": exp},
-             isinstance(r, dict) or "rows" not in r or bag(r["rows"]) != exp)
+             "rows" not in r or bag(r["rows"]) != exp)
 
 
 def cte_view_cases(ck, rng, runner, tier):
